@@ -198,7 +198,7 @@ def instrument_text(rel, txt):
             m = re.match(r"^(\s*)(\w+)\.lock\.Lock\(\)\s*$", line)
             if m:
                 nlock += 1
-                out.append('%s%s.lock.Lock(); verifEnter(%s, "%s#%d")' % (m.group(1), m.group(2), m.group(2), fn, nlock)); k += 1; continue
+                out.append('%sverifBefore(%s, "%s#%d"); %s.lock.Lock(); verifEnter(%s, "%s#%d")' % (m.group(1), m.group(2), fn, nlock, m.group(2), m.group(2), fn, nlock)); k += 1; continue
             out.append(line)
         txt = "\n".join(out)
         notes.append("%d lock/unlock site(s) announced" % k)
